@@ -1,7 +1,7 @@
 """C14 -- aa-log shows every matching AppArmor event exactly once, and only those.
 
-In-process (engine/gox/cmd/c14x): every sequence of <= 2 (thorough 3) records over a 22-record alphabet and every
-sequence of 3 (thorough 4) records over a 13-record alphabet (file
+In-process (engine/gox/cmd/c14x): every sequence of <= 2 (thorough 3) records over a 25-record alphabet and every
+sequence of 3 (thorough 4) records over a 15-record alphabet (file
 DENIED/ALLOWED/AUDIT, user-space dbus, net, cap, signal, STATUS, foreign, blank, garbled, 70 KiB foreign and
 AppArmor lines, exact duplicate up to timestamp+pid, near duplicate, noise path, extra keys) x 3 carriers
 (audit, syslog, journald JSON) x 4 filters through the real logs.New / GetJournalctlLogs, compared with a
@@ -77,15 +77,15 @@ def run(tier):
     ev = C.Evidence(PROP, tier); fnd = C.Findings(PROP)
     bins = gox.build(os.path.join(C.scratch(), 'gox'), ['c14x'])
     L = 4 if tier == 'thorough' else 3
-    reduced = 'file-denied,child-profile,dotted-profile,dotless-profile,file-allowed,dbus,status,garbled,long-foreign,bulk-foreign,dup-of-file-denied,near-dup-of-file-denied,extra-keys'
+    reduced = 'file-denied,hex-profile,near-noise,child-profile,dotted-profile,dotless-profile,file-allowed,dbus,status,garbled,long-foreign,bulk-foreign,dup-of-file-denied,near-dup-of-file-denied,extra-keys'
     if tier == 'thorough':
         # thorough: every sequence of <= 3 records over the whole alphabet, every 4-sequence over the 12-record alphabet
-        jobs = [['-len', '3', '-shard', str(i), '-of', '22'] for i in range(22)]
-        jobs += [['-minlen', '4', '-len', '4', '-only', reduced, '-shard', str(i), '-of', '13'] for i in range(13)]
+        jobs = [['-len', '3', '-shard', str(i), '-of', '25'] for i in range(25)]
+        jobs += [['-minlen', '4', '-len', '4', '-only', reduced, '-shard', str(i), '-of', '15'] for i in range(15)]
     else:
         # quick: every sequence of <= 2 records over the whole alphabet, every triple over a 9-record alphabet
-        jobs = [['-len', '2', '-shard', str(i), '-of', '22'] for i in range(22)]
-        jobs += [['-minlen', '3', '-len', '3', '-only', reduced, '-shard', str(i), '-of', '13'] for i in range(13)]
+        jobs = [['-len', '2', '-shard', str(i), '-of', '25'] for i in range(25)]
+        jobs += [['-minlen', '3', '-len', '3', '-only', reduced, '-shard', str(i), '-of', '15'] for i in range(15)]
 
     def shard(a):
         r = subprocess.run([bins['c14x'], '-mode', 'c14'] + a, capture_output=True, text=True, env=dict(os.environ, TMPDIR=C.scratch()))
